@@ -128,7 +128,8 @@ theorem wf_bucketCol (src : String) (d : Int) (hs : rawE (b src) = true) : wfExp
   decide +kernel
 
 theorem wf_lraValue (fn : RangeFn) (sec : Expr) (hs : wfExpr sec = true) : wfExpr (lraValue fn sec) = true := by
-  cases fn <;> simp only [lraValue, countF, bytesF, wfExpr, wfExprs, hs, Bool.and_true, Bool.and_eq_true] <;> decide +kernel
+  cases fn <;> simp only [lraValue, perSecond, countF, bytesF, wfExpr, wfExprs, hs, rawE_intText, Bool.and_true, Bool.and_eq_true] <;>
+    decide +kernel
 
 theorem word_agg_a : WordS "agg_a" := by constructor <;> decide +kernel
 
@@ -138,7 +139,7 @@ theorem wf_lraSel (fn : RangeFn) (d : Nat) (wl : Bool) (main : Sel) (hm : wfSel 
   simp only
   refine wfSel_with_ _ _ ?_ ?_
   · have h1 := wf_bucketCol "time_series.timestamp_ns" d (by decide +kernel)
-    have h2 := wf_lraValue fn (secLit d) (wf_secLit d)
+    have h2 := wf_lraValue fn (.int d) (by simp only [wfExpr]; exact rawE_intText _)
     cases wl <;>
       simp only [emptyStr, simpleCol, wfSelBody, wfExprs, wfExpr, wfJoins, List.append_nil, List.cons_append, List.nil_append,
         if_true, if_false, Bool.false_eq_true, Alias.text, h1, h2, Bool.and_eq_true, Bool.and_true, Bool.true_and] <;>
@@ -260,7 +261,7 @@ theorem wf_planByWithout (c : Ctx) (ht : TablesOK c) (useTS : Bool) (g : Option 
     · exact wf_byWithoutTS c ht _ g _ hs
 
 theorem wf_unwrapValue (fn : UnwrapFn) (sec : Expr) (hs : wfExpr sec = true) : wfExpr (unwrapValue fn sec) = true := by
-  cases fn <;> simp only [unwrapValue, wfExpr, wfExprs, hs, Bool.and_true, Bool.and_eq_true] <;> decide +kernel
+  cases fn <;> simp only [unwrapValue, perSecond, wfExpr, wfExprs, hs, rawE_intText, Bool.and_true, Bool.and_eq_true] <;> decide +kernel
 
 theorem word_unwrap_1 : WordS "unwrap_1" := by constructor <;> decide +kernel
 
@@ -269,7 +270,7 @@ theorem wf_unwrapFnSel (fn : UnwrapFn) (d : Nat) (main : Sel) (hm : wfSel main =
   unfold unwrapFnSel
   refine wfSel_with_ _ _ ?_ ?_
   · have h1 := wf_bucketCol "timestamp_ns" d (by decide +kernel)
-    have h2 := wf_unwrapValue fn (secLit d) (wf_secLit d)
+    have h2 := wf_unwrapValue fn (.int d) (by simp only [wfExpr]; exact rawE_intText _)
     simp only [emptyStr, wfSelBody, wfExprs, wfExpr, wfJoins, Alias.text, h1, h2, Bool.and_eq_true, Bool.and_true, Bool.true_and]
     decide +kernel
   · intro w hw
